@@ -143,6 +143,7 @@ def run_sensitivity(db: ProgramDB, spec: PropertySpec, seed: int) -> dict:
         "silent_on_twins": len([r for r in twins if r[2] == "silent"]),
         "skipped": len([r for r in results if r[2] == "skipped"]),
         "missed": [f"{r[0]}: {r[3]}" for r in broken if r[2] in ("missed", "error")],
+        "undecided": [f"{r[0]}: {r[3]}" for r in broken if r[2] == "undecided"],
         "twin_alarms": [f"{r[0]}: {r[2]} {r[3]}" for r in twins if r[2] != "silent"],
         "variants": [{"name": r[0], "kind": r[1], "outcome": r[2], "detail": r[3]} for r in sorted(results)],
     }
